@@ -50,7 +50,7 @@ Fixpoint str_eqb (a b : str) : bool :=
   | _, _ => false
   end.
 
-Fixpoint match_path (ks p : list str) : option (list str) :=
+Fixpoint match_path (ks p : list str) {struct p} : option (list str) :=
   match p, ks with
   | [], _ => Some ks
   | s :: p', k :: ks' => if str_eqb k ANY || str_eqb k s then match_path ks' p' else None
